@@ -63,9 +63,16 @@ def cases(tier, seed):
     rng = random.Random(seed)
     out = []
     maxp = 2 if tier == "quick" else 3
-    cap = 120 if tier == "quick" else 720
+    cap = 120 if tier == "quick" else 360
     for version in ("gfa1", "gfa2"):
-        for ids in universe.documents(version, maxp):
+        docs = list(universe.documents(version, maxp))
+        if tier != "quick":
+            # every document of <=2 primary lines, and a seeded sample of those with 3 (all of them, with all their orders, would take hours)
+            small = list(universe.documents(version, 2))
+            keys = {tuple(sorted(d)) for d in small}
+            big = [d for d in docs if tuple(sorted(d)) not in keys]
+            docs = small + rng.sample(big, min(1500, len(big)))
+        for ids in docs:
             if ambiguous(version, ids):
                 continue
             n = len(ids)
@@ -85,6 +92,6 @@ if __name__ == "__main__":
     res = harness.run(cs, check,
                       rule="for every closed document of <=%d primary catalogue lines: all permutations of its lines when it has <=%d lines, else %d seeded permutations; "
                            "each arrival order must give the same version, identifier namespace, canonical content, per-line reference targets and back-reference sets as the catalogue order, "
-                           "no placeholder may remain, WF must hold. one evaluation = one document (all its permutations)" % ((2, 5, 120) if tier == "quick" else (3, 6, 720)),
-                      bound="documents <=%d primary lines; all permutations up to %d lines" % ((2, 5) if tier == "quick" else (3, 6)), exhaustive=False)
+                           "no placeholder may remain, WF must hold. one evaluation = one document (all its permutations)" % ((2, 5, 120) if tier == "quick" else (3, 6, 360)),
+                      bound="documents <=%d primary lines%s; all permutations up to %d lines" % ((2, "", 5) if tier == "quick" else (3, " (all with <=2, a seeded sample of 1500 per version with 3)", 6)), exhaustive=False)
     harness.emit(res)
